@@ -965,6 +965,9 @@ func (f *framer) parsePreparedMetadata() preparedMetadata {
 
 	if f.proto >= protoVersion4 {
 		pkeyCount := f.readInt()
+		if pkeyCount < 0 || pkeyCount*2 > len(f.buf) {
+			panic(fmt.Errorf("received invalid partition key count: %d (%d bytes left)", pkeyCount, len(f.buf)))
+		}
 		pkeys := make([]int, pkeyCount)
 		for i := 0; i < pkeyCount; i++ {
 			pkeys[i] = int(f.readShort())
